@@ -329,12 +329,17 @@ func (s *httpServer) channelHandler(w http.ResponseWriter, req *http.Request, ps
 		messages = append(messages, pe.Error())
 	}
 
-	sort.Sort(clusterinfo.ClientStatsByNodeTopology{channelStats[channelName].Clients})
+	channel, ok := channelStats[channelName]
+	if !ok {
+		return nil, http_api.Err{404, "CHANNEL_NOT_FOUND"}
+	}
+
+	sort.Sort(clusterinfo.ClientStatsByNodeTopology{channel.Clients})
 
 	return struct {
 		*clusterinfo.ChannelStats
 		Message string `json:"message"`
-	}{channelStats[channelName], maybeWarnMsg(messages)}, nil
+	}{channel, maybeWarnMsg(messages)}, nil
 }
 
 func (s *httpServer) nodesHandler(w http.ResponseWriter, req *http.Request, ps httprouter.Params) (interface{}, error) {
